@@ -32,6 +32,9 @@ pub struct InstanceState {
     most_recent_disposed_generation_count: i32,
     most_recent_no_writers_generation_count: i32,
     last_received_time_stamp: Time,
+    /// Source timestamp of the most recent sample of this instance accepted into the history. It is the
+    /// reference of the TIME_BASED_FILTER and must outlive the samples themselves (take, KEEP_LAST eviction)
+    last_accepted_source_timestamp: Option<Time>,
 }
 
 impl InstanceState {
@@ -43,6 +46,7 @@ impl InstanceState {
             most_recent_disposed_generation_count: 0,
             most_recent_no_writers_generation_count: 0,
             last_received_time_stamp: Time::new(TIME_INVALID_SEC, TIME_INVALID_NSEC),
+            last_accepted_source_timestamp: None,
         }
     }
 
@@ -436,17 +440,21 @@ impl<T> DataReaderEntity<T> {
         }
 
         let is_sample_of_interest_based_on_time = {
-            let closest_timestamp_before_received_sample = self
-                .sample_list
+            // The reference is the last sample of the instance that was accepted, whether or not it is
+            // still stored: a sample the application has already taken still counts
+            let last_accepted_source_timestamp = self
+                .instances
                 .iter()
-                .filter(|cc| cc.instance_handle == sample.instance_handle)
-                .filter(|cc| cc.source_timestamp <= sample.source_timestamp)
-                .map(|cc| cc.source_timestamp)
-                .max();
+                .find(|x| x.handle() == &sample.instance_handle)
+                .and_then(|x| x.last_accepted_source_timestamp);
 
-            if let Some(Some(t)) = closest_timestamp_before_received_sample {
+            if let Some(t) = last_accepted_source_timestamp {
                 if let Some(sample_source_time) = sample.source_timestamp {
-                    let sample_separation = sample_source_time - t;
+                    let sample_separation = if sample_source_time >= t {
+                        sample_source_time - t
+                    } else {
+                        t - sample_source_time
+                    };
                     DurationKind::Finite(sample_separation)
                         >= self.qos.time_based_filter.minimum_separation
                 } else {
@@ -568,6 +576,15 @@ impl<T> DataReaderEntity<T> {
         }?;
 
         let sample_writer_guid = sample.writer_guid;
+        if let Some(instance) = self
+            .instances
+            .iter_mut()
+            .find(|x| x.handle() == &sample.instance_handle)
+        {
+            if sample.source_timestamp > instance.last_accepted_source_timestamp {
+                instance.last_accepted_source_timestamp = sample.source_timestamp;
+            }
+        }
         tracing::debug!(cache_change = ?sample, "Adding change to data reader history cache");
 
         match self.qos.destination_order.kind {
